@@ -13,6 +13,7 @@ driver pplv_grid replays the journal on the reference model and decides with the
 A `desc` mismatch re-bases the model on the library's state, so one defect gives one mismatch.
 """
 import collections, hashlib, json, os, re, shutil
+from . import c05_reduce
 
 LEVEL = "proof"
 
@@ -62,6 +63,7 @@ class History:
 def run(ctx):
     ctx.ensure_ppl()
     broken = ctx.prove(["PPLV.Props.C05"])
+    c05_reduce.run(ctx)          # stage 2: Grid::simplify / Grid::conversion models, own harness and driver
     if ctx.tier == "thorough":
         broken += ctx.leanchecker(["PPLV.Props.C05"])
     drv = ctx.ensure_pplv("pplv_grid")
